@@ -184,6 +184,18 @@ fn closure_cases(tier: Tier) -> Vec<(String, Vec<String>, Vec<u8>, bool)> {
         }
     }
     if tier.is_thorough() {
+        // beyond the writer's 2^20-packet buffer: the flush in mid-run meets the closed pipe (few closing points)
+        let mut big: Vec<u8> = Vec::with_capacity(1_100_000 * 64);
+        let (_, one) = streams::multi_link(1, 1, 0, false, false);
+        let mut h = one[..64].to_vec();
+        h[8] = 64;
+        h[9] = 0;
+        h[10] = 64;
+        h[11] = 0;
+        for _ in 0..1_100_000 {
+            big.extend_from_slice(&h);
+        }
+        v.push(("big: filtered data to stdout, 1.1 million packets".into(), s(&["-f", "0"]), big, true));
         v.push(("view its-readout-frames-data".into(), s(&["view", "its-readout-frames-data"]), clean.clone(), false));
         v.push(("statistics toml to stdout".into(), s(&["check", "all", "-S", "stdout", "-D", "toml"]), faulty, false));
         v.push(("view rdh unstyled".into(), s(&["view", "rdh", "-d"]), clean, false));
@@ -668,7 +680,7 @@ pub fn run(tier: Tier, replay: Option<String>, part: Option<usize>) -> i32 {
         }
         let _ = binary_out;
         // thorough: every N; quick: every N up to 1100 (line / 1 KiB buffer effects), then every 97th byte
-        let ns: Vec<usize> = (0..=len).filter(|n| tier.is_thorough() || *n <= 200 || (1000..=1050).contains(n) || n % 211 == 0 || *n == len).collect();
+        let ns: Vec<usize> = if label.starts_with("big:") { vec![0, 1, 4096, 65_536, 1 << 20, 50_000_000, len] } else { (0..=len).filter(|n| tier.is_thorough() || *n <= 200 || (1000..=1050).contains(n) || n % 211 == 0 || *n == len).collect() };
         let res = par_map(&ns, |_, n| {
             let (r, _s) = closure_run(&args, &input, Some(*n));
             let err = r.stderr_str();
